@@ -4,6 +4,7 @@ import (
 	"bytes"
 	"fmt"
 	"os"
+	"os/exec"
 	"path/filepath"
 	"sort"
 	"strings"
@@ -96,6 +97,21 @@ func runC04(c *Ctx, faults bool) {
 	for i := 0; i < n; i++ {
 		h.Step()
 	}
+	// sometimes: many paths sharing few objects (the same content checked in
+	// under many names), so that transfers complete while the tree is still
+	// being scanned
+	if t.Bool(1, 4, "many-duplicate-paths") {
+		k := 60 + t.Choose(140, "n-duplicates")
+		a, b := h.NewContent(), h.NewContent()
+		for i := 0; i < k; i++ {
+			data := a
+			if i%7 == 3 {
+				data = b
+			}
+			h.WriteFile(fmt.Sprintf("many/dup%03d.bin", i), data)
+		}
+		h.commit("many duplicates")
+	}
 	if _, code := w.Git(u1, "push", "-q", "origin", "--all"); code != 0 {
 		panic(sim.HarnessError{Msg: "set-up push failed: " + w.lastOutput()})
 	}
@@ -125,7 +141,8 @@ func runC04(c *Ctx, faults bool) {
 	cloneRef := h.Branches[t.Choose(len(h.Branches), "clone-branch")]
 	cloneOut, code := w.GitEnv(w.Root, env, "clone", "-q", "-b", cloneRef,
 		"-c", "lfs.url="+w.LFSURL(), "-c", "lfs.transfer.maxretries=2", "-c", "lfs.transfer.maxretrydelay=0",
-		"-c", "lfs.concurrenttransfers="+conc, "-c", "lfs.locksverify=false", remote, u2)
+		"-c", "lfs.concurrenttransfers="+conc, "-c", "lfs.locksverify=false",
+		"-c", "lfs.transfer.batchsize="+[]string{"100", "1", "2"}[t.Choose(3, "batch-size")], remote, u2)
 	g2 := filepath.Join(u2, ".git")
 	if code != 0 {
 		c.Probe("clone-failed")
@@ -328,6 +345,14 @@ func c04Op(c *Ctx, w *World, h *Hist, u2 string, faults bool) {
 		} else {
 			args = append([]string{"lfs", "pull", "origin"}, fargs...)
 		}
+		// what git lfs checkout can use is what is local before it runs (the
+		// clean filter run by its index update may re-create objects from
+		// already materialised files afterwards)
+		localBefore := LocalObjects(g2)
+		if d := os.Getenv("VERIF_C04_SNAPSHOT"); d != "" {
+			os.RemoveAll(d)
+			exec.Command("cp", "-a", u2, d).Run() // debugging aid: state before the judged command
+		}
 		out, code := w.Git(u2, args...)
 		if msg, ok := storeIntact(g2); !ok {
 			c.Violation("bad-object-stored", "after %v (exit %d): %s", args, code, msg)
@@ -375,13 +400,16 @@ func c04Op(c *Ctx, w *World, h *Hist, u2 string, faults bool) {
 			a := readWT(u2, p)
 			if kind == 5 {
 				// git lfs checkout only uses what is in local storage
-				obj, has := local[ptr.Oid]
+				obj, has := localBefore[ptr.Oid]
 				if has && !bytes.Equal(a.data, obj) {
 					c.Violation("working-file-wrong", "git lfs checkout left %s with %d bytes although %s is in local storage", p, len(a.data), ptr.Oid[:12])
 					return
 				}
-				if !has && !bytes.Equal(a.data, b.data) {
-					c.Violation("working-file-wrong", "git lfs checkout changed %s although its object is not in local storage", p)
+				// (not local before: the index update's clean filter may have
+				// re-created it from an already materialised duplicate while
+				// the command was still running, so the content is fine too)
+				if !has && !bytes.Equal(a.data, b.data) && Oid(a.data) != ptr.Oid {
+					c.Violation("working-file-wrong", "git lfs checkout changed %s to something that is neither its pointer nor its content although its object was not in local storage", p)
 					return
 				}
 				continue
